@@ -45,6 +45,64 @@ static std::string sh(const std::string& cmd) {
 
 struct Scenario { std::string name; std::vector<int> ops; };
 
+// ---- S5: an object is replaced between two calls of a long-lived thread ----------------------------------------------
+// A worker thread uses module A; the main thread (properly synchronised: nobody uses A any more) deletes A and creates B, a module of
+// another dimension, which the allocator places at A's address (environment answer of the wrapped allocator); the worker then uses
+// B.  What the worker computes on B must be what a thread that never saw A computes: a per-thread cache keyed on the address of a
+// module, and invalidated only in the thread that deletes it, fails here although no two threads ever run concurrently.
+#include <pthread.h>
+#include <semaphore.h>
+static uint64_t s5_tour(MODULE* m, uint64_t N, bool ntt) {
+  GBuf a(3 * N * 8, 8), b(3 * N * 8, 16), r(3 * N * 8, 24), tmp(vec_znx_normalize_base2k_tmp_bytes(m) + 64, 0);
+  for (uint64_t i = 0; i < 3 * N; ++i) { a.as<int64_t>()[i] = probe62(i + 3) >> 8; b.as<int64_t>()[i] = probe62(i + 1003) >> 8; }
+  uint64_t h = 0xcbf29ce484222325ull;
+  vec_znx_rotate(m, 3, r.as<int64_t>(), 3, N, a.as<int64_t>(), 3, N); h = ct_hash(r, h);
+  vec_znx_automorphism(m, 5, r.as<int64_t>(), 3, N, a.as<int64_t>(), 2, N); h = ct_hash(r, h);
+  vec_znx_automorphism(m, 5, r.as<int64_t>(), 3, N, r.as<int64_t>(), 3, N); h = ct_hash(r, h);
+  vec_znx_rotate(m, 3, r.as<int64_t>(), 3, N, r.as<int64_t>(), 3, N); h = ct_hash(r, h);
+  vec_znx_add(m, r.as<int64_t>(), 3, N, a.as<int64_t>(), 3, N, b.as<int64_t>(), 2, N); h = ct_hash(r, h);
+  vec_znx_normalize_base2k(m, 13, r.as<int64_t>(), 2, N, a.as<int64_t>(), 3, N, tmp.p); h = ct_hash(r, h);
+  GBuf d((ntt ? 32 : 8) * N * 2, 16), big((ntt ? 16 : 8) * N * 2, 24), t2(vec_znx_idft_tmp_bytes(m) + 64, 0);
+  for (uint64_t i = 0; i < 2 * N; ++i) a.as<int64_t>()[i] = small_val(i + 3, 1 << 20);
+  vec_znx_dft(m, (VEC_ZNX_DFT*)d.p, 2, a.as<int64_t>(), 2, N);
+  vec_znx_idft(m, (VEC_ZNX_BIG*)big.p, 2, (VEC_ZNX_DFT*)d.p, 2, t2.p); h = ct_hash(big, h);
+  if (!ntt) {
+    VEC_ZNX_BIG* x = (VEC_ZNX_BIG*)big.p; GBuf y(8 * N * 2, 8);
+    vec_znx_big_automorphism(m, 5, (VEC_ZNX_BIG*)y.p, 2, x, 2); h = ct_hash(y, h);
+    vec_znx_big_rotate(m, 3, (VEC_ZNX_BIG*)y.p, 2, x, 2); h = ct_hash(y, h);
+    GBuf t3(znx_small_single_product_tmp_bytes(m) + 64, 0), pr(N * 8, 8);
+    for (uint64_t i = 0; i < N; ++i) { a.as<int64_t>()[i] = small_val(i + 3, 1 << 8); b.as<int64_t>()[i] = small_val(i + 31, 1 << 8); }
+    znx_small_single_product(m, pr.as<int64_t>(), a.as<int64_t>(), b.as<int64_t>(), t3.p); h = ct_hash(pr, h);
+  }
+  return h;
+}
+struct S5 { sem_t go, done; MODULE* m; uint64_t N; bool ntt; uint64_t out; bool quit; };
+static void* s5_worker(void* v) { S5* s = (S5*)v; for (;;) { sem_wait(&s->go); if (s->quit) return 0; s->out = s5_tour(s->m, s->N, s->ntt); sem_post(&s->done); } }
+// returns "" / a violation text; *reused says whether the allocator really placed B at A's address
+static std::string s5_run(uint64_t N1, uint64_t N2, bool ntt, bool* reused) {
+  AllocTrack& at = alloc_track();
+  at.on = 1; at.recycle = 1; at.poison_free = 0xDD;
+  S5 s; sem_init(&s.go, 0, 0); sem_init(&s.done, 0, 0); s.quit = false; s.ntt = ntt;
+  pthread_t w; pthread_create(&w, 0, s5_worker, &s);
+  MODULE* A = new_module_info(N1, ntt ? NTT120 : FFT64);
+  s.m = A; s.N = N1; sem_post(&s.go); sem_wait(&s.done);            // the worker uses A
+  delete_module_info(A);                                               // nobody uses A any more
+  MODULE* B = new_module_info(N2, ntt ? NTT120 : FFT64);
+  *reused = (void*)B == (void*)A;
+  s.m = B; s.N = N2; sem_post(&s.go); sem_wait(&s.done);            // the worker uses B
+  const uint64_t hw = s.out;
+  S5 f; sem_init(&f.go, 0, 0); sem_init(&f.done, 0, 0); f.quit = false; f.ntt = ntt; f.m = B; f.N = N2;
+  pthread_t fw; pthread_create(&fw, 0, s5_worker, &f); sem_post(&f.go); sem_wait(&f.done);   // a thread that never saw A
+  const uint64_t hf = f.out;
+  const uint64_t hm = s5_tour(B, N2, ntt);
+  s.quit = f.quit = true; sem_post(&s.go); sem_post(&f.go); pthread_join(w, 0); pthread_join(fw, 0);
+  delete_module_info(B);
+  at.recycle = 0; at.poison_free = -1;
+  if (hf != hm) return "a fresh thread and the main thread disagree on the new module";
+  if (hw != hf) return "the thread that had used the deleted module computes other results on the new module than a thread that never saw the deleted one";
+  return "";
+}
+
 int main(int argc, char** argv) {
   Args args = parse_args("C12", argc, argv, 480, 2400);
   lsm_locate();
@@ -195,6 +253,26 @@ int main(int argc, char** argv) {
     ctx.end_case(true);
   }, "Engine C");
 
+  // S5: module replaced (same address, other dimension) between two calls of a long-lived thread
+  uint64_t s5_reused = 0, s5_total = 0;
+  {
+    struct P { uint64_t n1, n2; bool ntt; };
+    std::vector<P> ps;
+    for (int t = 0; t < 2; ++t) for (auto& q : std::vector<std::pair<uint64_t, uint64_t>>{{8, 16}, {16, 8}, {32, 16}, {64, 8}, {16, 16}}) ps.push_back({q.first, q.second, t == 1});
+    uint64_t* shm = (uint64_t*)mmap(0, 4096, PROT_READ | PROT_WRITE, MAP_SHARED | MAP_ANONYMOUS, -1, 0);
+    ctx.parallel(ps.size(), [&](uint64_t i) {
+      std::string id = sfmt("hand-over|%s|module of N=%llu deleted, module of N=%llu created at its address, used by the thread that had used the first", ps[i].ntt ? "ntt120" : "fft64", (unsigned long long)ps[i].n1, (unsigned long long)ps[i].n2);
+      if (!ctx.want(id)) return;
+      ctx.begin_case(id);
+      bool reused = false;
+      std::string err = s5_run(ps[i].n1, ps[i].n2, ps[i].ntt, &reused);
+      __sync_fetch_and_add(&shm[0], 1); if (reused) __sync_fetch_and_add(&shm[1], 1);
+      if (!err.empty()) ctx.violation(id, err);
+      ctx.end_case(true);
+    }, "object replaced under a long-lived thread");
+    s5_total = shm[0]; s5_reused = shm[1];
+  }
+
   // S0: detector self-test - concurrent FIRST use of a *_simple function must show the double initialisation
   bool selftest_found = false;
   int selftest_at = -1;
@@ -239,6 +317,7 @@ int main(int argc, char** argv) {
   ex.set("reduction_exact", reduction_exact).set("library_sync_instructions", nlock).set("library_sync_imports", nimp);
   ex.set("detector_selftest_concurrent_first_use", selftest_found ? sfmt("double initialisation found with 1 preemption at scheduling point %d (documented precondition, not a violation)", selftest_at) : "NOT FOUND - the scheduler does not reach the check-then-act window");
   ex.set("tsan", tsan_note);
+  ex.set("hand_over_scenarios", sfmt("%llu (the allocator placed the new module at the address of the deleted one in %llu of them)", (unsigned long long)s5_total, (unsigned long long)s5_reused));
   if (!selftest_found) machinery_error("Engine C self-test failed: concurrent first use of reim_fft_simple did not show the double initialisation");
   ctx.assumptions = {"the *_simple functions are used according to their documented warm-up protocol (one completed call per dimension before concurrent use); concurrent FIRST use is a documented precondition and only serves as a self-test of the detector",
                      "reduction argument: the library has no lock/atomic (checked on the built object), so an op that writes no shared storage commutes with every step of other threads; I-imm therefore decides all interleavings of any number of threads",
